@@ -15,4 +15,5 @@ CHECK = {'pkgs': ['core/dutydb'],
  'trusted': "synctest/vsync/runtime overlay as for C17; 'same signed content' of an aggregate key is the attestation data the key is the root of",
  'rule': 'interleavings of 3-5 harness threads; distinct = distinct outcome vectors',
  'budget_s': {'quick': 100, 'thorough': 1500}}
+CHECK["race_tests"] = {"core/dutydb": "TestVerifRaceC06"}
 CHECK["assumptions"] = SCHEDX_ASSUME
